@@ -8,6 +8,7 @@ instances of the same definitions, or hold for every instance.
 import Mahotas.Proofs.C16
 import Mahotas.Proofs.C16Otsu
 import Mahotas.Proofs.C16Rc
+import Mahotas.Proofs.C16Zeros
 open Mahotas Mahotas.C16
 
 /-- **soft_threshold = the statement (integers).** For `tval ≥ 0` the three numpy statements
@@ -116,9 +117,102 @@ theorem C16_bernsen_rule (A : Img Int) (offs : List (List Int)) (ct g2 : Int) (p
   obtain ⟨h3, h4⟩ := listMinI_spec _ hne
   exact ⟨_, _, h1, h2, h3, h4, rfl⟩
 
+/-- **otsu with `ignore_zeros` = otsu without the zero pixels.** For every arithmetic instance (the
+`Float` one the driver runs and the exact one) and every image: `otsu(img, ignore_zeros=True)` is the
+kernel applied to the histogram with bin 0 cleared (`hist[0] = 0`, as in `thresholding.py`), and that
+histogram *is* the histogram of the image with its zero pixels removed — same number of bins (an
+all-zero image gives the one-bin histogram `[0]` either way) — so the result equals
+`otsu(img[img != 0], ignore_zeros=False)`. With `C16_otsu_first_argmax` (stated for both settings) the
+threshold maximises the between-class variance of the non-zero pixels. -/
+theorem C16_otsu_ignore_zeros {α : Type} [Add α] [Sub α] [Mul α] [Div α] [LT α] [DecidableLT α]
+    (cast : Nat → α) (img : List Nat) :
+    otsuImg cast img true = otsuGen cast ((fullhistogram img).toList.set 0 0) ∧
+    histOf img true = (fullhistogram (img.filter (· ≠ 0))).toList ∧
+    otsuImg cast img true = otsuImg cast (img.filter (· ≠ 0)) false := by
+  refine ⟨rfl, histOf_ignore_zeros img, ?_⟩
+  unfold otsuImg; rw [histOf_ignore_zeros]
+
+/-- **rc with `ignore_zeros` = rc without the zero pixels**, for every arithmetic instance and every
+image: when some pixel is non-zero the result is the kernel applied to the histogram with bin 0
+cleared; an all-zero image returns 0 (the early return `if hist[0] == img.size`); in both cases the
+result equals `rc(img[img != 0], ignore_zeros=False)` (for the all-zero image: `rc` of the empty
+image, whose one-bin histogram has no occupied level, is level 0). -/
+theorem C16_rc_ignore_zeros {α : Type} [Add α] [Sub α] [Mul α] [Div α] [LT α] [DecidableLT α]
+    (cast : Nat → α) (img : List Nat) :
+    (img.count 0 ≠ img.length →
+      rcImg cast img true = rcGen cast ((fullhistogram img).toList.set 0 0)) ∧
+    (img.count 0 = img.length → rcImg cast img true = cast 0) ∧
+    rcImg cast img true = rcImg cast (img.filter (· ≠ 0)) false := by
+  refine ⟨fun h => ?_, fun h => ?_, rcImg_ignore_zeros cast img⟩
+  · have hz : ¬ (fullhistogram img).getD 0 0 = img.length := by rw [fullhistogram_count]; exact h
+    unfold rcImg
+    simp only [Bool.true_and, beq_iff_eq, hz, if_false]; rfl
+  · have hz : (fullhistogram img).getD 0 0 = img.length := by rw [fullhistogram_count]; exact h
+    unfold rcImg
+    simp only [Bool.true_and, beq_iff_eq, hz, if_true]
+
+/-- **otsu separates the occupied levels.** For every image and either setting of `ignore_zeros`:
+if the histogram handed to the kernel has at least two occupied levels (`lo < hi`, the smallest and
+the largest occupied level), the threshold returned by the exact instance of the model satisfies
+`lo ≤ T < hi` — both classes `{≤ T}` and `{> T}` contain pixels. Corollary of
+`C16_otsu_first_argmax`: at any `t ∈ [lo, hi)` the class means satisfy `μ_B ≤ t < t+1 ≤ μ_O`, so
+`σ(t) > 0`, while `σ = 0` whenever a class is empty. -/
+theorem C16_otsu_separates (img : List Nat) (ignoreZeros : Bool)
+    (hne : ∃ v ∈ histOf img ignoreZeros, v ≠ 0)
+    (hlh : loOf (histOf img ignoreZeros) < lastNonzero (histOf img ignoreZeros)) :
+    let hist := histOf img ignoreZeros
+    let T := otsuImg ratCast img ignoreZeros
+    loOf hist ≤ T ∧ T < lastNonzero hist ∧ nBOf hist T ≠ 0 ∧ nOOf hist T ≠ 0 ∧ 0 < otsuSigma hist T := by
+  intro hist T
+  obtain ⟨h1, h2⟩ := otsuGen_separates hist hne hlh
+  have hn := hi_lt_length hist hne
+  refine ⟨h1, h2, ?_, ?_, otsuSigma_pos hist hne h1 h2⟩
+  · exact Nat.pos_iff_ne_zero.1 (cB_pos hist hne h1 (Nat.lt_trans h2 hn))
+  · exact Nat.pos_iff_ne_zero.1 (cO_pos hist hne h2)
+
+/-- **otsu on a two-level image separates the two levels.** If every pixel (every non-zero pixel when
+zeros are ignored) is `a` or `b` with `a < b` and both occur, the returned threshold `T` satisfies
+`a ≤ T < b`: thresholding with `img > T` yields exactly the pixels of level `b`. -/
+theorem C16_otsu_two_level (img : List Nat) (ignoreZeros : Bool) (a b : Nat) (hab : a < b)
+    (hz : ignoreZeros = true → a ≠ 0) (ha : a ∈ img) (hb : b ∈ img)
+    (hall : ∀ p ∈ img, p = a ∨ p = b ∨ (ignoreZeros = true ∧ p = 0)) :
+    let T := otsuImg ratCast img ignoreZeros
+    a ≤ T ∧ T < b ∧ ∀ p ∈ img, (p = a → ¬ T < p) ∧ (p = b → T < p) := by
+  intro T
+  have hA : hOf (histOf img ignoreZeros) a ≠ 0 := by
+    rw [hOf_histOf, if_neg (fun h => hz h.1 h.2)]
+    exact fun h => (List.count_eq_zero.1 h) ha
+  have hB : hOf (histOf img ignoreZeros) b ≠ 0 := by
+    rw [hOf_histOf, if_neg (fun h => by omega)]
+    exact fun h => (List.count_eq_zero.1 h) hb
+  have hAll : ∀ i, hOf (histOf img ignoreZeros) i ≠ 0 → i = a ∨ i = b := by
+    intro i hi
+    rw [hOf_histOf] at hi
+    by_cases hc : ignoreZeros = true ∧ i = 0
+    · rw [if_pos hc] at hi; exact absurd rfl hi
+    · rw [if_neg hc] at hi
+      have hm : i ∈ img := by
+        by_contra hn
+        exact hi (List.count_eq_zero.2 hn)
+      rcases hall i hm with h | h | h
+      · exact Or.inl h
+      · exact Or.inr h
+      · exact absurd h hc
+  obtain ⟨hne, hlo, hhi⟩ := two_level_lo_hi _ a b hab hA hB hAll
+  obtain ⟨h1, h2⟩ := otsuGen_separates (histOf img ignoreZeros) hne (by rw [hlo, hhi]; exact hab)
+  rw [hlo] at h1
+  rw [hhi] at h2
+  refine ⟨h1, h2, fun p _ => ⟨fun e => ?_, fun e => ?_⟩⟩
+  · subst e; exact Nat.not_lt.2 h1
+  · subst e; exact h2
+
 /-! ### non-vacuity -/
 
 example : softGen (0 : Int) 5 2 = 3 ∧ softGen (0 : Int) (-5) 2 = -3 ∧ softGen (0 : Int) 2 2 = 0 := by decide
 example : bernsenRule 200 10 10 50 60 = true ∧ bernsenRule 12 10 12 50 60 = true ∧
     bernsenRule 12 10 12 50 20 = false := by decide
 example : [0, 2, 1, 2].Perm [2, 2, 1, 0] := by decide
+example : histOf [0, 0, 3, 3, 5] true = [0, 0, 0, 2, 0, 1] ∧ histOf [3, 3, 5] false = [0, 0, 0, 2, 0, 1] ∧
+    histOf [0, 0] true = [0] ∧ histOf [] false = [0] := by decide
+example : loOf (histOf [5, 2, 2, 7] false) = 2 ∧ lastNonzero (histOf [5, 2, 2, 7] false) = 7 ∧
+    (∃ v ∈ histOf [5, 2, 2, 7] false, v ≠ 0) := by decide
